@@ -6,6 +6,7 @@ output line.  Strings travel as comma-separated hexadecimal code points, `-` for
 import AioMySensors.Model.Codec
 import AioMySensors.Model.Version
 import AioMySensors.Model.Handlers
+import AioMySensors.Model.WriteSpec
 
 open AioMySensors
 
@@ -154,6 +155,15 @@ def step (st : DState) (line : String) : DState × String :=
       let y ← y.toNat?; let mo ← mo.toNat?; let d ← d.toNat?; let h ← h.toNat?; let mi ← mi.toNat?; let sec ← sec.toNat?
       let env := { st.env with year := y, month := mo, day := d, hour := h, minute := mi, second := sec }
       pure (runM st faults (recv env line) fun m => "ok " ++ showMsg m)).getD (st, "bad-op")
+  | ["gspec", line, faults, y, mo, d, h, mi, sec] =>
+    -- C06's specification (`Model/WriteSpec.lean`) evaluated at the current state; the state is not changed
+    (do
+      let line ← decodeStr line; let faults ← parseFaults faults
+      let y ← y.toNat?; let mo ← mo.toNat?; let d ← d.toNat?; let h ← h.toNat?; let mi ← mi.toNat?; let sec ← sec.toNat?
+      let env := { st.env with year := y, month := mo, day := d, hour := h, minute := mi, second := sec }
+      pure (st, match decode st.gw.proto line with
+        | some m => "spec" ++ showWrites (expectedAttempts env st.gw m faults)
+        | none => "invalid")).getD (st, "bad-op")
   | "gsend" :: buffer :: faults :: rest =>
     (do
       let buffer ← parseBool buffer; let faults ← parseFaults faults
